@@ -397,7 +397,7 @@ func verifCloneDiff(d Diff) Diff {
 // verifPointerDocs: documents whose keys need (or seem to need) JSON Pointer escaping, holding
 // scalars and short lists, one and two levels deep.
 func verifPointerDocs() []JsonNode {
-	keys := []string{"a/b", "~0", "~", "x~1y", "c~d", "~1", "m~n/o", ""}
+	keys := []string{"a/b", "~0", "~", "x~1y", "c~d", "~1", "m~n/o", "", "01", "007", "+2", "-0", "1e2", " 1", "é"}
 	n := func(f float64) JsonNode { return jsonNumber(f) }
 	vals := []JsonNode{n(1), n(2), jsonArray{}, jsonArray{n(1)}, jsonArray{n(1), n(2)}, jsonArray{n(2)}, jsonObject{}}
 	var out []JsonNode
